@@ -6,7 +6,7 @@
   its first key, and on a list to the slot of its first index (`get?_foldl_actK`,
   `foldl_actA_idx`), so the result of applying ANY ordering of the emitted modifications in
   which no Delete follows an Add below it (`Ord`) can be computed entry by entry:
-    * `rebuild`  — adding the leaves of a node (every list item holding a scalar) in any order
+    * `readd`  — adding the leaves of a node (every list item holding a scalar) in any order
                    to an absent position yields a node with the same flattened view;
     * `recon`    — for `Compat` documents the result has the flattened view of the left one.
   The string level (rendering, `splitPath`, `parseSeg`, `parseListComp`) is in ApplyDiffStr.lean.
@@ -446,5 +446,272 @@ theorem foldl_act_adds : ∀ (T : List AP) (o : Option Node), T ≠ [] →
     simp only [List.map_cons, List.foldl_cons] at this ⊢
     rw [this]
     rfl
+
+/-! ## the Adds of a node: which of them go through a given index / key -/
+
+theorem filterMap_popIdx_map (T : List AP) (i j : Nat) :
+    (T.map (AP.idx i)).filterMap (popIdx j) = if i = j then T else [] := by
+  induction T with
+  | nil => simp
+  | cons t T ih =>
+    simp only [List.map_cons, List.filterMap_cons, popIdx]
+    by_cases e : i = j
+    · simp only [e, if_true] at ih ⊢; rw [ih]
+    · simp only [e, if_false] at ih ⊢; exact ih
+
+theorem filterMap_popKey_map (T : List AP) (k k' : String) :
+    (T.map (AP.key k)).filterMap (popKey k') = if k = k' then T else [] := by
+  induction T with
+  | nil => simp
+  | cons t T ih =>
+    simp only [List.map_cons, List.filterMap_cons, popKey]
+    by_cases e : k = k'
+    · simp only [e, if_true] at ih ⊢; rw [ih]
+    · simp only [e, if_false] at ih ⊢; exact ih
+
+theorem mem_relList : ∀ {xs : List Node} {i0 : Nat} {p : AP}, p ∈ relList xs i0 →
+    ∃ j m x, p = .idx (i0 + j) m ∧ xs[j]? = some x ∧ m ∈ rel x
+  | [], _, _, h => by cases h
+  | x :: xs, i0, p, h => by
+    simp only [relList, List.mem_append, List.mem_map] at h
+    rcases h with ⟨m, hm, rfl⟩ | h
+    · exact ⟨0, m, x, rfl, rfl, hm⟩
+    · obtain ⟨j, m, y, rfl, hy, hm⟩ := mem_relList h
+      exact ⟨j + 1, m, y, by rw [Nat.add_assoc, Nat.add_comm 1 j], by simpa using hy, hm⟩
+
+theorem mem_relList_of : ∀ {xs : List Node} (i0 : Nat) {j : Nat} {x : Node} {m : AP}, xs[j]? = some x → m ∈ rel x →
+    AP.idx (i0 + j) m ∈ relList xs i0
+  | [], _, _, _, _, h, _ => by simp at h
+  | y :: xs, i0, 0, x, m, h, hm => by
+    simp only [List.getElem?_cons_zero, Option.some.injEq] at h
+    subst h
+    simp only [relList, List.mem_append, List.mem_map]
+    exact Or.inl ⟨m, hm, rfl⟩
+  | y :: xs, i0, j + 1, x, m, h, hm => by
+    simp only [List.getElem?_cons_succ] at h
+    simp only [relList, List.mem_append]
+    refine Or.inr ?_
+    have := mem_relList_of (i0 + 1) h hm
+    rwa [Nat.add_assoc, Nat.add_comm 1 j] at this
+
+theorem relList_pop_lt : ∀ (xs : List Node) (i0 j : Nat), j < i0 → (relList xs i0).filterMap (popIdx j) = []
+  | [], _, _, _ => rfl
+  | x :: xs, i0, j, h => by
+    simp only [relList, List.filterMap_append, filterMap_popIdx_map]
+    rw [if_neg (by omega), relList_pop_lt xs (i0 + 1) j (by omega)]
+    rfl
+
+theorem relList_pop : ∀ (xs : List Node) (i0 j : Nat),
+    (relList xs i0).filterMap (popIdx (i0 + j)) = match xs[j]? with
+      | some x => rel x
+      | none => []
+  | [], _, _ => rfl
+  | x :: xs, i0, 0 => by
+    simp only [relList, List.filterMap_append, filterMap_popIdx_map, Nat.add_zero, if_true,
+      List.getElem?_cons_zero]
+    rw [relList_pop_lt xs (i0 + 1) i0 (by omega)]
+    simp
+  | x :: xs, i0, j + 1 => by
+    simp only [relList, List.filterMap_append, filterMap_popIdx_map, List.getElem?_cons_succ]
+    rw [if_neg (by omega)]
+    have := relList_pop xs (i0 + 1) j
+    rw [Nat.add_assoc, Nat.add_comm 1 j] at this
+    rw [this]
+    rfl
+
+theorem mem_relKvs : ∀ {kvs : List (String × Node)} {p : AP}, p ∈ relKvs kvs → ∃ k x m, p = .key k m ∧ (k, x) ∈ kvs ∧ m ∈ rel x
+  | [], _, h => by cases h
+  | (k, x) :: r, p, h => by
+    simp only [relKvs, List.mem_append, List.mem_map] at h
+    rcases h with ⟨m, hm, rfl⟩ | h
+    · exact ⟨k, x, m, rfl, List.mem_cons_self .., hm⟩
+    · obtain ⟨k', y, m, rfl, hy, hm⟩ := mem_relKvs h
+      exact ⟨k', y, m, rfl, List.mem_cons_of_mem _ hy, hm⟩
+
+theorem relKvs_pop : ∀ (kvs : List (String × Node)), AMap.Sorted kvs → ∀ k,
+    (relKvs kvs).filterMap (popKey k) = match AMap.get? kvs k with
+      | some x => rel x
+      | none => []
+  | [], _, _ => rfl
+  | (k0, x) :: r, hs, k => by
+    simp only [relKvs, List.filterMap_append, filterMap_popKey_map, AMap.get?]
+    rw [relKvs_pop r hs.tail k]
+    by_cases e : k = k0
+    · subst e
+      simp only [if_true]
+      rw [AMap.get?_of_allGt hs.head_lt]
+      simp
+    · have : k0 ≠ k := fun e' => e e'.symm
+      simp [e, this]
+
+/-! ## rebuilding a node from its Adds, in any order -/
+
+/-- every item of every list holds at least one scalar -/
+inductive Node.ItemsHaveScalars : Node → Prop
+  | leaf (v : Scalar) : Node.ItemsHaveScalars (.leaf v)
+  | list {xs : List Node} : (∀ x ∈ xs, 0 < x.scalarCount) → (∀ x ∈ xs, Node.ItemsHaveScalars x) →
+      Node.ItemsHaveScalars (.list xs)
+  | cont {kvs : List (String × Node)} : (∀ e ∈ kvs, Node.ItemsHaveScalars e.2) → Node.ItemsHaveScalars (.cont kvs)
+
+theorem Node.ItemsHaveScalars.of_list {xs : List Node} (h : (Node.list xs).ItemsHaveScalars) {x : Node} (hx : x ∈ xs) :
+    rel x ≠ [] ∧ x.ItemsHaveScalars := by
+  cases h with
+  | list h1 h2 =>
+    refine ⟨?_, h2 x hx⟩
+    intro e
+    have := h1 x hx
+    rw [scalarCount_rel, e] at this
+    simp at this
+
+theorem Node.ItemsHaveScalars.of_cont {kvs : List (String × Node)} (h : (Node.cont kvs).ItemsHaveScalars)
+    {e : String × Node} (he : e ∈ kvs) : e.2.ItemsHaveScalars := by
+  cases h with
+  | cont h => exact h e he
+
+theorem foldl_actA_cont : ∀ (S : List AP) (c : AMap Node), (∀ p ∈ S, p.IsKey) →
+    S.foldl (fun n p => actA p n) (.cont c) = .cont ((S.map M.a).foldl (fun c m => actK m c) c)
+  | [], _, _ => rfl
+  | .leaf _ :: _, _, h => absurd (h _ (List.mem_cons_self ..)) (by simp [AP.IsKey])
+  | .idx _ _ :: _, _, h => absurd (h _ (List.mem_cons_self ..)) (by simp [AP.IsKey])
+  | .key k m :: S, c, h => by
+    simp only [List.foldl_cons, List.map_cons]
+    exact foldl_actA_cont S _ (fun p hp => h p (List.mem_cons_of_mem _ hp))
+
+theorem foldl_actA_key (S : List AP) (n0 : Node) (hS : ∀ p ∈ S, p.IsKey) (hne : S ≠ []) :
+    S.foldl (fun n p => actA p n) n0 = .cont ((S.map M.a).foldl (fun c m => actK m c) (nodeCont n0)) := by
+  rw [← foldl_actA_cont S _ hS]
+  cases S with
+  | nil => exact absurd rfl hne
+  | cons s S =>
+    cases s with
+    | leaf _ => exact absurd (hS _ (List.mem_cons_self ..)) (by simp [AP.IsKey])
+    | idx _ _ => exact absurd (hS _ (List.mem_cons_self ..)) (by simp [AP.IsKey])
+    | key k m => rfl
+
+theorem filterMap_popM_map_a (S : List AP) (k : String) :
+    (S.map M.a).filterMap (popM k) = (S.filterMap (popKey k)).map M.a := by
+  induction S with
+  | nil => rfl
+  | cons s S ih =>
+    cases s with
+    | leaf _ => simp only [List.map_cons, List.filterMap_cons, popM, popKey]; exact ih
+    | idx _ _ => simp only [List.map_cons, List.filterMap_cons, popM, popKey]; exact ih
+    | key k' m =>
+      simp only [List.map_cons, List.filterMap_cons, popM, popKey]
+      by_cases e : k' = k
+      · simp only [e, if_true, List.map_cons]; rw [ih]
+      · simp only [e, if_false]; exact ih
+
+mutual
+theorem readd : ∀ (n : Node), n.WF → n.ItemsHaveScalars → rel n ≠ [] → ∀ S : List AP, S.Perm (rel n) →
+    ∀ q, flattenNode (S.foldl (fun n p => actA p n) Node.null) q = flattenNode n q
+  | .leaf v, _, _, _, S, hS, q => by
+    simp only [rel, List.perm_singleton] at hS
+    subst hS
+    rfl
+  | .list xs, hw, hi, hne, S, hS, q => by
+    have hidx : ∀ p ∈ S, p.IsIdx := by
+      intro p hp
+      obtain ⟨j, m, x, rfl, _, _⟩ := mem_relList (hS.mem_iff.mp hp)
+      trivial
+    have hSne : S ≠ [] := fun e => hne (by subst e; exact hS.nil_eq.symm)
+    rw [foldl_actA_idx_from S _ hidx hSne]
+    obtain ⟨ys, e, _, hmem, hub, hget⟩ := foldl_actA_idx S [] hidx
+    rw [show nodeList Node.null = [] from rfl, e]
+    simp only [flattenNode]
+    have hlen : ys.length = xs.length := by
+      apply Nat.le_antisymm
+      · apply hub xs.length (Nat.zero_le _)
+        intro i m hm
+        obtain ⟨j, m', x, he, hx, _⟩ := mem_relList (hS.mem_iff.mp hm)
+        cases he
+        have : j < xs.length := by
+          rcases Nat.lt_or_ge j xs.length with h | h
+          · exact h
+          · rw [List.getElem?_eq_none h] at hx; cases hx
+        omega
+      · apply Nat.le_of_not_lt
+        intro hlt
+        have hx : xs[ys.length]? = some xs[ys.length] := List.getElem?_eq_getElem hlt
+        have hrel := (hi.of_list (List.getElem_mem hlt)).1
+        obtain ⟨m, hm⟩ := List.exists_mem_of_ne_nil _ hrel
+        have h1 := mem_relList_of 0 hx hm
+        rw [Nat.zero_add] at h1
+        have := hmem _ _ (hS.mem_iff.mpr h1)
+        omega
+    apply flattenList_congr xs ys hlen
+    intro j hj q'
+    rw [hget j]
+    have hx : xs[j]? = some xs[j] := List.getElem?_eq_getElem hj
+    have hperm := hS.filterMap (popIdx j)
+    have hp := relList_pop xs 0 j
+    rw [Nat.zero_add, hx] at hp
+    simp only [rel] at hperm
+    rw [hp] at hperm
+    have hxd : xs.getD j Node.null = xs[j] := by
+      rw [List.getD_eq_getElem?_getD, hx]; rfl
+    rw [hxd, show ([] : List Node).getD j Node.null = Node.null from rfl]
+    exact readdList xs (fun x hx => ⟨hw.of_list_mem hx, (hi.of_list hx).2, (hi.of_list hx).1⟩) xs[j]
+      (List.getElem_mem hj) _ hperm q'
+  | .cont kvs, hw, hi, hne, S, hS, q => by
+    have hkey : ∀ p ∈ S, p.IsKey := by
+      intro p hp
+      obtain ⟨k, x, m, rfl, _, _⟩ := mem_relKvs (hS.mem_iff.mp hp)
+      trivial
+    have hSne : S ≠ [] := fun e => hne (by subst e; exact hS.nil_eq.symm)
+    rw [foldl_actA_key S _ hkey hSne, show nodeCont Node.null = [] from rfl]
+    have hkeyed : ∀ m ∈ S.map M.a, m.Keyed := by
+      intro m hm
+      obtain ⟨p, hp, rfl⟩ := List.mem_map.mp hm
+      have := hkey p hp
+      cases p <;> simp_all [AP.IsKey, M.Keyed]
+    obtain ⟨hsorted, hget⟩ := get?_foldl_actK (S.map M.a) [] .nil hkeyed
+    simp only [flattenNode]
+    apply flattenKvs_congr _ kvs hsorted hw.sorted
+    intro k q'
+    rw [hget k, filterMap_popM_map_a]
+    have hperm := hS.filterMap (popKey k)
+    simp only [rel] at hperm
+    rw [relKvs_pop kvs hw.sorted k] at hperm
+    cases hg : AMap.get? kvs k with
+    | none =>
+      rw [hg] at hperm
+      rw [hperm.eq_nil]
+      rfl
+    | some x =>
+      rw [hg] at hperm
+      simp only at hperm
+      by_cases hx : rel x = []
+      · rw [hx] at hperm
+        rw [hperm.eq_nil]
+        simp only [List.map_nil, List.foldl_nil, AMap.get?_nil, flatO]
+        rw [flattenNode_nil_of_rel hx]
+      · have hT : S.filterMap (popKey k) ≠ [] := fun e => hx (by rw [e] at hperm; exact hperm.nil_eq.symm)
+        rw [foldl_act_adds _ _ hT]
+        simp only [AMap.get?_nil, Option.getD_none, flatO]
+        have hmem := AMap.mem_of_get? hg
+        exact readdKvs kvs (fun e he => ⟨hw.of_cont_get (AMap.get?_of_mem hw.sorted he), hi.of_cont he⟩)
+          (k, x) hmem hx _ hperm q'
+theorem readdList : ∀ (xs : List Node), (∀ x ∈ xs, x.WF ∧ x.ItemsHaveScalars ∧ rel x ≠ []) →
+    ∀ x ∈ xs, ∀ S : List AP, S.Perm (rel x) →
+    ∀ q, flattenNode (S.foldl (fun n p => actA p n) Node.null) q = flattenNode x q
+  | [], _, _, hx, _, _, _ => by cases hx
+  | y :: ys, h, x, hx, S, hS, q => by
+    rcases List.mem_cons.mp hx with e | hx
+    · have := h y (List.mem_cons_self ..)
+      rw [e] at hS ⊢
+      exact readd y this.1 this.2.1 this.2.2 S hS q
+    · exact readdList ys (fun z hz => h z (List.mem_cons_of_mem _ hz)) x hx S hS q
+theorem readdKvs : ∀ (kvs : List (String × Node)), (∀ e ∈ kvs, e.2.WF ∧ e.2.ItemsHaveScalars) →
+    ∀ e ∈ kvs, rel e.2 ≠ [] → ∀ S : List AP, S.Perm (rel e.2) →
+    ∀ q, flattenNode (S.foldl (fun n p => actA p n) Node.null) q = flattenNode e.2 q
+  | [], _, _, he, _, _, _, _ => by cases he
+  | (k, y) :: r, h, e, he, hne, S, hS, q => by
+    rcases List.mem_cons.mp he with e' | he
+    · have := h (k, y) (List.mem_cons_self ..)
+      rw [e'] at hS hne ⊢
+      exact readd y this.1 this.2 hne S hS q
+    · exact readdKvs r (fun z hz => h z (List.mem_cons_of_mem _ hz)) e he hne S hS q
+end
 
 end Ytk
